@@ -181,6 +181,29 @@ def work(args):
         return idx, case, seed, [], None, traceback.format_exc()
 
 
+def after_an_ended_connection(args):
+    """a holder of a valid fresh ticket is admitted ALSO after an earlier connection of the same endpoint has ended in an unusual way
+    (the server application's handler raised, was kicked, closed locally): the handler runs again and sees the ticket's user"""
+    import crash_session as cs
+    version, scenario = args
+    try:
+        cfg = ps.Cfg(version=version, credentials=True, fragment_size=16, resend_timeout=0.5, ping_timeout=1.0, resend_limit=2)
+        se = cs.run_special(cfg, 1, scenario)
+        bad = []
+        ops = {o[0]: o for o in se.ops}
+        if se.crash or se.timed_out:
+            bad.append("the session ended abnormally (crash=%s, timed out=%s)" % (se.crash, se.timed_out))
+        if ops.get("connect", [0, 0, 0, None])[3] != "ok":
+            bad.append("the first connection (valid fresh ticket) was not established: %r" % (ops.get("connect"),))
+        if ops.get("reconnect", [0, 0, 0, None])[3] != "ok":
+            bad.append("after a connection that ended by %s, a holder of a valid fresh ticket connecting from the same endpoint got %r: the handshake must complete AND the handler must run (it echoes)" % (scenario, ops.get("reconnect", [0, 0, 0, None])[3]))
+        if getattr(se, "server_table", 0) != 0:
+            bad.append("the server still holds %d client entries after the connection ended by %s" % (se.server_table, scenario))
+        return version, scenario, bad, None
+    except Exception:
+        return version, scenario, [], traceback.format_exc()
+
+
 def cases(rng, quick):
     out = []
     OK = {"server": True, "client": True}
@@ -277,6 +300,15 @@ def run(ctx):
             ctx.case(key=idx, nontrivial=True, tag=case["name"],
                      sample={"case": {k: (v.hex() if isinstance(v, bytes) else v) for k, v in case.items()}, "model_lines": r.get("lines")} if idx % 53 == 0 else None)
     os.environ["TZ"] = "UTC0"; time.tzset()
+    with multiprocessing.Pool(8) as pool:
+        for version, scenario, bad, err in pool.imap_unordered(after_an_ended_connection, [(v, sc) for v in (1, 0) for sc in
+                ("handler-raises:eof", "handler-raises:reject", "local-close:s", "local-close:c")]):
+            if err:
+                ctx.corr_break("c05-session-harness", "session crashed in the harness", {"traceback": err, "scenario": scenario}); continue
+            ctx.case(key=("after-ended", version, scenario), nontrivial=True, tag="after-ended-connection:" + scenario.split(":")[0])
+            for what in bad:
+                ctx.violation("c05:after-ended:%s:v%d" % (scenario, version), what, {"version": version, "scenario": scenario,
+                              "how": "harness/corr_C05.py after_an_ended_connection((version, scenario))"})
     # the interpreter's flags are part of the environment: the same verdicts with assertions compiled away (python -O)
     import json, subprocess, sys
     sub = [(i, c, sd) for (i, c, sd) in jobs if c.get("expect") is not None and not c.get("history")]
